@@ -43,7 +43,9 @@ def hash_functions(names):
         _index = _build()
     out = []
     for n in names:
-        hits = _index.get(n)
+        if n.endswith('<lambda>') or '<listcomp>' in n or '<genexpr>' in n or '<dictcomp>' in n:
+            continue
+        hits = _index.get(n) or _index.get(n.replace('.<locals>', ''))
         if not hits:
             out.append({'name': n, 'missing': True})
         else:
